@@ -350,4 +350,64 @@ theorem classify_encode_data (o : Oracle) (p : Bytes) (sd : SignedData) (hw : sd
     simp [SignedData.fields] at this
   · exact headerStage_not_fromProtoErr_of_data o _ sd ((classifyData_accepted_iff _ _ _ _).1 hcd).1 ht
 
+/-! ## the oracle answers as functions of what they are applied to -/
+
+/-- the third-party crypto as functions of what they are applied to -/
+structure Crypto where
+  /-- libp2p's `UnmarshalPublicKey` accepts these key bytes -/
+  keyOk : Bytes → Bool
+  /-- `PubKey.Verify(payload, signature)` under the key parsed from the first argument -/
+  verify : Bytes → Bytes → Bytes → Bool
+  /-- `types.KeyAddress` of the key parsed from these bytes -/
+  keyAddr : Bytes → Bytes
+
+/-- the key bytes a blob carries when read as `pb.SignedHeader` / `pb.SignedData` (field 3 = signer) -/
+def carriedKey (bs : Bytes) : Bytes :=
+  match decFields bs with
+  | some fs => match getMsg 3 Signer.decodeRaw fs with
+    | some sg => (sg.getD {}).pubKey
+    | none => []
+  | none => []
+
+/-- the per-blob oracle answers as the harness computes them (`Oracles()` in harness/streams/retr): the blob is
+decoded with the repository's decoder; the header signature is verified over `Header.MarshalBinary()` of the
+DECODED header (the default signature payload), the data signature over `Data.MarshalBinary()` -/
+def Crypto.oracleFor (c : Crypto) (bs : Bytes) : Oracle :=
+  { keyOk := c.keyOk (carriedKey bs)
+    hdrSigOk := match SignedHeader.decode (fun _ => true) bs with
+      | some sh => c.verify sh.signer.pubKey sh.header.encode sh.signature
+      | none => false
+    dataSigOk := match SignedData.decode (fun _ => true) bs with
+      | some sd => c.verify sd.signer.pubKey sd.data.encode sd.signature
+      | none => false
+    keyAddr := c.keyAddr (carriedKey bs) }
+
+theorem SignedHeader.decode_true_of_decode (k : Bytes → Bool) (bs : Bytes) (sh : SignedHeader)
+    (h : SignedHeader.decode k bs = some sh) : SignedHeader.decode (fun _ => true) bs = some sh := by
+  unfold SignedHeader.decode at h ⊢
+  cases hf : decFields bs with
+  | none => rw [hf] at h; simp at h
+  | some fs =>
+    rw [hf] at h
+    simp only at h ⊢
+    split at h
+    · split at h
+      · simp at h
+      · simp [h]
+    · simp at h
+
+theorem SignedData.decode_true_of_decode (k : Bytes → Bool) (bs : Bytes) (sd : SignedData)
+    (h : SignedData.decode k bs = some sd) : SignedData.decode (fun _ => true) bs = some sd := by
+  unfold SignedData.decode at h ⊢
+  cases hf : decFields bs with
+  | none => rw [hf] at h; simp at h
+  | some fs =>
+    rw [hf] at h
+    simp only at h ⊢
+    split at h
+    · split at h
+      · simp at h
+      · simp [h]
+    · simp at h
+
 end Retrieve
